@@ -70,8 +70,14 @@ def mutants(r, doc, n):
             p = r.choice(dicts)
             if p and p[-1] in ("bins", "data"):
                 continue            # a new key inside a bins/data mapping is a new bin, not a format error
-            get(d, p)["bogus"] = 1.0
-            out.append(("add key bogus at /%s" % "/".join(map(str, p)), d))
+            # an unknown key: a novel word, or a word of the format that is required elsewhere
+            # ("version" / "type" / "data" belong to the header and to typed items only)
+            tgt = get(d, p)
+            word = r.choice(["bogus", "version", "type", "data"])
+            if word in tgt or (word != "bogus" and not p):
+                word = "bogus"
+            tgt[word] = 1.0 if word == "bogus" else ("1.1" if word == "version" else "Count" if word == "type" else 0.0)
+            out.append(("add key %s at /%s" % (word, "/".join(map(str, p))), d))
         elif c < 0.65:
             pv = [(p, v) for p, v in ps if p]
             if not pv:
